@@ -9,8 +9,8 @@
 (* out.  Clauses (first failing is reported):                              *)
 (*   raised, continuity (input = previous output, bit for bit),            *)
 (*   value        |out - T(in)| <= 1 um (conform7) / 2 um (14-parameter)   *)
-(*   ref_epoch    at the set's reference epoch conform14 = conform7 bits   *)
-(*   same_as_conform14  ATRF helper = conform14 with the plate-motion set  *)
+(*   (at the reference epoch, and for the ATRF helpers, `value` decides:   *)
+(*    the formula of Conform14 reduces to Conform7 at dt = 0)              *)
 (*   identity_2020     ATRF helpers at 2020-01-01 return the input bits    *)
 (*   closes       set then its negation returns within the second-order    *)
 (*                bound (and the absolute figures for shipped sets)        *)
@@ -80,8 +80,9 @@ Step ==
      \E f \in {IF ev.exc # "" THEN "raised"
                ELSE IF prevhex # "" /\ ev.inhex # prevhex THEN "continuity"
                ELSE IF ~Close3(Vec(ev.out), Expected(ev), ValTol(ev)) THEN "value"
-               ELSE IF ev.a = "C14" /\ ev.e = EvSet(ev).ep /\ ev.outhex # ev.refhex THEN "ref_epoch"
-               ELSE IF ev.a \in {"A2G", "G2A"} /\ ev.outhex # ev.refhex THEN "same_as_conform14"
+               \* (at the reference epoch Conform14 IS Conform7, and the convenience functions ARE Conform14 with the plate-motion set: both
+               \*  are decided numerically by `value`; no bit-for-bit comparison with another routine - a different order of the same
+               \*  floating-point operations is still the same operation)
                ELSE IF ev.a \in {"A2G", "G2A"} /\ ev.e = EvSet(ev).ep /\ ev.outhex # ev.inhex THEN "identity_2020"
                ELSE IF ev.closes /\ ~Close3(Vec(ev.out), orig, CloseAbs(ev)) THEN "closes"
                ELSE VcvClause(ev)} :
